@@ -44,7 +44,7 @@ func prelude(i int, s *x.Sim, g *x.Gen) [][2]any {
 	var st [][2]any
 	add := func(note string, f func()) { st = append(st, [2]any{note, f}) }
 	w := func(typ, name string, hold bool) *x.Watcher { return s.NewWatcher(typ, name, hold) }
-	switch i % 6 {
+	switch i % 7 {
 	case 0: // ACK, NACK (previous version), identical, restart keeps version and clears nonce
 		a := w(x.TypeURLA, "r0", false)
 		add("watch r0", func() { a.Start(s.C) })
@@ -85,6 +85,20 @@ func prelude(i int, s *x.Sim, g *x.Gen) [][2]any {
 		add("release", func() { s.ReleaseAll() })
 		add("respond garbage", func() { s.W.Server(0).Respond(g.MakeResponse(0, x.TypeURLA, "garbage")) })
 		add("release", func() { s.ReleaseAll() })
+	case 6: // cached SotW-complete resource, then a response in which every resource is undecodable, slow watcher
+		a := w(x.TypeURLA, "r2", true)
+		b := w(x.TypeURLA, "r3", true)
+		add("watch r2 (holds done)", func() { a.Start(s.C) })
+		add("watch r3 (holds done)", func() { b.Start(s.C) })
+		add("respond valid", func() { s.W.Server(0).Respond(g.MakeResponse(0, x.TypeURLA, "valid")) })
+		add("release", func() { s.ReleaseAll() })
+		add("all-undecodable response followed by a valid one", func() {
+			s.W.Server(0).Respond(g.MakeResponse(0, x.TypeURLA, "all-garbage"))
+			s.W.Server(0).Respond(g.MakeResponse(0, x.TypeURLA, "valid"))
+		})
+		add("release one", func() { a.Release(0) })
+		add("release all", func() { s.ReleaseAll() })
+		add("release all", func() { s.ReleaseAll() })
 	case 5: // NewStream failing, then recovering
 		a := w(x.TypeURLA, "r0", false)
 		add("stream-fail on", func() { s.W.Server(0).SetStreamFail(true) })
@@ -133,7 +147,7 @@ func runCase(t *testing.T, fam string, i int, rng *rand.Rand) caseOut {
 	synctest.Test(t, func(t *testing.T) {
 		cfg := x.SimConfig{Servers: 1, NodeID: fmt.Sprintf("node-%d", i)}
 		opts := x.GenOpts{Names: []string{"r0", "r1", "r2", "r3", "r4", "r5"}, HoldProb: 0.35, MaxWatchers: 8,
-			Batch: true, Burst: true, Garbage: true, StreamFail: true}
+			Batch: true, Burst: true, Garbage: true, AllGarbage: true, StreamFail: true}
 		steps := 25 + rng.Intn(30)
 		switch fam {
 		case "proto":
@@ -267,8 +281,8 @@ func TestVerifC42(t *testing.T) {
 	}
 	r.Finish(vlib.Spec{
 		Level: "fault_enumeration",
-		Rule: "PRNG-generated scripts (25-55 steps after a deterministic prelude that rotates over 6 protocol situations) of watch/cancel (1-6 names, 2 types, single and concurrent batches), " +
-			"server responses (valid, identical, subset, one invalid, undecodable, empty, extra name, unknown type, bursts), stream breaks before/after the first response, NewStream failures, virtual-time sleeps (backoff, 15 s expiry) and watchers that park their done callbacks; " +
+		Rule: "PRNG-generated scripts (25-55 steps after a deterministic prelude that rotates over 7 protocol situations) of watch/cancel (1-6 names, 2 types, single and concurrent batches), " +
+			"server responses (valid, identical, subset, one invalid, one undecodable, all undecodable, empty, extra name, unknown type, bursts), stream breaks before/after the first response, NewStream failures, virtual-time sleeps (backoff, 15 s expiry) and watchers that park their done callbacks; " +
 			"family 'shared': two authorities sharing one server with simultaneous responses. Every DiscoveryRequest and every Recv call is judged; quiescent checks after every step. " +
 			"non-trivial = >=3 requests judged and >=1 ACK/NACK; distinct = family + set of protocol situations the case actually reached (ack, nack, restart with retained version, held done blocking Recv, unsubscribe-all, unknown type, failed send, batch, burst, simultaneous)",
 		Assumptions: []string{
